@@ -344,7 +344,20 @@ def r4_owner(ctx, F, cg, ext_fn, where):
     cfn, cbb, ct = callers[0]
     ctx.saw(cfn)
     S = cfn.self_adt
-    if not S or cfn.name != 'new':
+    # a constructor: `new`, or a private second step of it (an associated function without self that returns the struct and is called by constructors only)
+    def _is_ctor(f_, depth=0):
+        if not f_.self_adt or f_.kind != 'AssocFn':
+            return False
+        if f_.name == 'new':
+            return True
+        ins = f_.j.get('inputs') or []
+        takes_self = bool(ins) and f_.self_adt.split('::')[-1] in str(ins[0].get('s', '')) and ins[0].get('k') in ('ref', 'refmut')
+        outs = str((f_.j.get('output') or {}).get('s', ''))
+        if takes_self or f_.self_adt.split('::')[-1] not in outs or str(f_.j.get('vis')).startswith('Public') or depth > 2:
+            return False
+        cs = F.callers().get(f_.path, [])
+        return bool(cs) and all(_is_ctor(c[0], depth + 1) for c in cs)
+    if not S or not _is_ctor(cfn):
         ctx.violation('C11-R4', key + ':caller', 'extend_lifetime is called from %s, not from a constructor `new`' % cfn.path, where)
         return
     P = prov.prov_of(cfn)
@@ -367,10 +380,15 @@ def r4_owner(ctx, F, cg, ext_fn, where):
         if f == ref_field:
             continue
         core = prov.strip(v)
-        if core[0] in ('const', 'param'):
+        if core[0] == 'const':
             continue
-        if core[0] in ('call', 'field', 'variant') and any(n == core for n in ref_tree_nodes):      # the owner itself, or a part of a returned struct
+        # the owner itself, a part of a returned struct, or (in a second-step constructor) a parameter moved into the literal
+        if core[0] in ('call', 'field', 'variant') and any(n == core for n in ref_tree_nodes):
             owners.append(f)
+        elif core[0] == 'param' and cfn.name != 'new':
+            ext_args = [n[2][0] for n in ref_tree_nodes if n[0] == 'call' and prov.callee(n) == ext_fn.path and n[2]]
+            if any(x == core for a_ in ext_args for x in prov.walk(a_, limit=200)):
+                owners.append(f)
     ctx.require(bool(owners), 'C11-R4', key + ':same-struct', '%s { %s: extend_lifetime(..), %s: <owner> } — referrer and owner are stored '
                 'in the same struct value' % (S.split('::')[-1], ref_field, ', '.join(owners)), cfn.where(),
                 bad='the value passed through extend_lifetime in %s does not borrow from any other field of the same %s literal' % (cfn.path, S))
@@ -419,7 +437,10 @@ def r4_owner(ctx, F, cg, ext_fn, where):
             continue
         k2 = '%s:borrow-source:%s:%d' % (key, g.name, i + 1)
         if g is ext_fn:
-            continue                          # the value itself is built in place (no borrowing producer): nothing to hold
+            # the value handed to extend_lifetime is (a view of) the referent itself: it must be an owner
+            if any(x == c for x in prov.walk(ref, limit=400) for c in owner_cores):
+                nsrc += 1
+            continue
         nsrc += 1
         held = any(x == c for x in prov.walk(ref, limit=400) for c in owner_cores)
         if k2 in seen_keys and held:
